@@ -273,3 +273,39 @@ def fixed_point_bound(x, F, yhats, alpha, jj):
             xm = max(abs(x[lo]), abs(x[hi]))
             bound += max(1.0, alpha) * (1 + xm / (x[hi] - x[lo])) * max(abs(yhats[j][1]), abs(yhats[j][2]))
     return 64 * EPS * bound
+
+
+# ---- sibling pairs: state must not leak between calls --------------------------------------------------------------
+
+@st.composite
+def sibling_pair(draw, ctx):
+    """Two valid cases on the same target samples whose references have the same number of points and the same
+    first and last position but different interior positions (a result cached on sizes / end points only would be
+    wrong for the second one)."""
+    k = draw(st.integers(2, 6))
+    interior = [draw(st.integers(1, 4)) for _ in range(k)]
+    fixed = [0]
+    for c in interior:
+        fixed.append(fixed[-1] + c + 1)
+    m = fixed[-1] + 1
+    xd = draw(xs(m, kinds=["unit", "fstep", "dyadic", "motif", "hours"]))
+    yd = draw(ys(m))
+    x, y = xd["x"], yd["y"]
+    # sibling: move every interior fixed index by +-1 where both neighbouring intervals keep an interior sample
+    fixed2 = list(fixed)
+    moved = False
+    for j in range(1, k):
+        step = draw(st.sampled_from([1, -1]))
+        cand = fixed2[j] + step
+        if cand - fixed2[j - 1] >= 2 and fixed[j + 1] - cand >= 2:
+            fixed2[j] = cand
+            moved = True
+    tr = draw(st.sampled_from(RULES))
+    rr = draw(st.sampled_from(RULES))
+    strategy = draw(st.sampled_from(["closest", "lower", "higher"]))
+    yr = draw(ys(k + 1))["y"]
+    base = dict(x=x, y=y, mode="search", strategy=strategy, tr=tr, rr=rr, alpha=draw(st.sampled_from([None, 0.5, 2.0])),
+                as_list=False, facade=False, offgrid=False, xkind=xd["kind"], ykind=yd["kind"], yrkind="pair")
+    a = dict(base, fixed=fixed, x_ref=[x[i] for i in fixed], y_ref=yr)
+    b = dict(base, fixed=fixed2, x_ref=[x[i] for i in fixed2], y_ref=yr)
+    return dict(a=a, b=b, moved=moved)
